@@ -2,6 +2,7 @@ SPECIFICATION Spec
 CONSTANTS
   Kind = "drape"
   Scope = 2
+  Mode = "rw"
   Deviations = {"DefaultOriginRaises", "DrapeSettersKeepCache"}
 VIEW vw
 INVARIANT ExportState
